@@ -222,7 +222,8 @@ class Tr:
             v = self.fresh()
             if k == "u":
                 return pre + [(v, "(chk_shift %d %s %s)" % (nbits, tb, conv_int(raw, ty)))], v
-            return pre + [(v, "(chk_shift %d %s (chk_s%d %s))" % (nbits, tb, nbits, raw))], v
+            v0 = self.fresh()      # signed: the shifted value must be representable, the amount in range
+            return pre + [(v0, "(chk_s%d %s)" % (nbits, raw)), (v, "(chk_shift %d %s %s)" % (nbits, tb, v0))], v
         if k == "u":
             if op in ("&", "|", "^"):
                 return pre, raw
